@@ -9,7 +9,8 @@
     (unknown type name); [OutOfFuel] fuel exhausted. *)
 From Coq Require Import String Lia.
 From FA Require Import model.Base model.Varint model.Value model.Schema model.Utf8 model.Float model.Codec
-                       model.Validate model.Write model.Read model.Conform proofs.ElabProofs proofs.ElabFloats.
+                       model.Validate model.Write model.Read model.Conform model.Container model.ContainerPy
+                       proofs.ElabProofs proofs.AcceptIff proofs.ElabFloats proofs.GateProofs.
 
 (** whenever the validator returns (any fuel that does not run out), it returns True exactly on conforming data *)
 Theorem C10_iff : forall f o e s v b, validate f o e s (Some v) = Ok b -> (b = true <-> conformsP o e s v).
@@ -48,12 +49,39 @@ Theorem C10_fuel_monotone : forall f f' o e s ov b, (f <= f')%nat -> validate f 
 Proof. intros f f' o e s ov b H. apply validate_fuel_mono. exact H. Qed.
 Print Assumptions C10_fuel_monotone.
 
-(** Writer.write with validator=True: a rejected record raises before anything is encoded ([buf], the pending
-    block, is what it was: the result carries no bytes).  That no byte reaches the STREAM is checked on the
-    implementation by corr:validate-vs-writer. *)
-Theorem C10_gate : forall f o e s buf v, validate f o e s (Some v) = Ok false -> writer_write true f o e s buf v = WErr.
-Proof. exact writer_gate. Qed.
+(** Writer.write with validator=True at the level of the Python writer (model/ContainerPy.v [pstep]: validation gate, then
+    elaboration into the pending block, then the block logic of the container writer; any codec [compress], any marker).
+    A record validate rejects -- raise_errors=False answers False, equivalently raise_errors=True raises ValidationError,
+    equivalently (C10_iff) the validator answers and the datum does not conform -- makes write raise and leaves the
+    writer EXACTLY as it was: stream, pending block, record count.  No byte of it is ever emitted. *)
+Theorem C10_gate : forall compress sync f o e s st v, validate f o e s (Some v) = Ok false ->
+  pstep compress sync f o true e s st (PWrite v) = (st, PRaised).
+Proof. exact gate_false. Qed.
 Print Assumptions C10_gate.
+
+Theorem C10_gate_raises : forall compress sync f o e s st v, validate_raise f o e s (Some v) = VRaised ->
+  pstep compress sync f o true e s st (PWrite v) = (st, PRaised).
+Proof. exact gate_raises. Qed.
+Print Assumptions C10_gate_raises.
+
+Theorem C10_gate_nonconforming : forall compress sync f o e s st v b,
+  validate f o e s (Some v) = Ok b -> ~ conformsP o e s v -> pstep compress sync f o true e s st (PWrite v) = (st, PRaised).
+Proof. exact gate_nonconforming. Qed.
+Print Assumptions C10_gate_nonconforming.
+
+(** a whole history (writes, flushes, donor blocks, reopen-for-append) with the rejected write is the history without
+    it: the file finally on the stream holds exactly the other records *)
+Theorem C10_gate_history : forall compress sync f o e s st ops1 ops2 v, validate f o e s (Some v) = Ok false ->
+  prun compress sync f o true e s st (ops1 ++ PWrite v :: ops2)%list = prun compress sync f o true e s st (ops1 ++ ops2)%list.
+Proof. exact gate_history. Qed.
+Print Assumptions C10_gate_history.
+
+(** and only validated records get through the gate *)
+Theorem C10_gate_only_validated : forall compress sync f o e s st st' v,
+  pstep compress sync f o true e s st (PWrite v) = (st', POk) ->
+  validate f o e s (Some v) = Ok true /\ exists a, elab f o e s v = WOk a /\ st' = wstep compress sync st (OWrite a).
+Proof. exact gate_only_validated. Qed.
+Print Assumptions C10_gate_only_validated.
 
 (** what validate accepts is a well-typed wire value once elaborated (then C01 gives the round trip).  [data_ok]: the
     well-formedness the abstraction of Python objects / parsed schemas always has (see props/C01.v); the range of the
@@ -63,7 +91,8 @@ Theorem C10_accepted_typed : forall f o e s v a,
 Proof. exact elab_typed_py. Qed.
 Print Assumptions C10_accepted_typed.
 
-(** "everything validate accepts the writer encodes" is FALSE of the faithful model without side conditions: *)
+(** "everything validate accepts the writer encodes" is FALSE of the faithful model as it stands; each witness violates one
+    clause of [wneed] below (a foreign exception in the branch search, the strict writer's field discipline, float overflow): *)
 Open Scope string_scope.
 Definition o0 : wopts := {| strict := false; strict_allow_default := false; disable_tuple := false |}.
 Definition ostrict : wopts := {| strict := true; strict_allow_default := false; disable_tuple := false |}.
@@ -100,19 +129,24 @@ Proof.
 Qed.
 Print Assumptions C10_writer_accepts_refuted.
 
-(** ... and TRUE under the side condition [wdom] (model/Conform.v, clause by clause): for the default writer
-    (strict = strict_allow_default = false), (1) every number under a float/double type converts -- float(int) does not
-    overflow, narrowing to binary32 does not overflow under "float"; (2) a field absent without default has a type that
-    write_record's _accepts_null recognises (null, dict-form null, a union with such a branch) -- by C10_absent_field_agrees
-    this is implied by validate's acceptance for schemas as parse_schema produces them; (3) at every union reached, the
-    validator gives a verdict (no foreign exception, fuel n suffices) on every branch, because the search may try branches
-    validate never looked at.  Then from some fuel on the writer elaborates the datum. *)
-Theorem C10_writer_accepts_partial : forall n o e s v f,
-  strict o = false /\ strict_allow_default o = false ->
-  wdom n o e s v -> validate f o e s (Some v) = Ok true ->
-  exists f0, forall f', (f0 <= f')%nat -> exists a, elab f' o e s v = WOk a.
-Proof. exact writer_accepts. Qed.
-Print Assumptions C10_writer_accepts_partial.
+(** ... and EXACTLY characterised.  [wneed n o e s v] (model/Conform.v, clause by clause) is what the writer needs beyond
+    conformance, for ANY writer options:
+    (1) numbers under float/double convert (float(int) does not overflow; narrowing to binary32 does not overflow under "float");
+    (2) records: a strict / strict_allow_default writer finds no key that is not a field; an absent field needs strict = false and
+        either a default, or strict_allow_default = false and a type _accepts_null recognises (by C10_absent_field_agrees the last
+        is implied by validate's acceptance for schemas as parse_schema produces them);
+    (3) unions: the branch search answers (no foreign exception in a branch it tries; fuel n) with an index i -- C09 says which --
+        and the datum is writable under that branch.
+    For a datum validate accepts, the writer eventually elaborates it IF AND ONLY IF wneed holds at some height. *)
+Theorem C10_writer_accepts_iff : forall f o e s v, validate f o e s (Some v) = Ok true ->
+  ((exists f0, forall f', (f0 <= f')%nat -> exists a, elab f' o e s v = WOk a) <-> exists n, wneed n o e s v).
+Proof. exact writer_accepts_iff. Qed.
+Print Assumptions C10_writer_accepts_iff.
+
+(** necessity holds for every datum, accepted by validate or not: whatever the writer encodes satisfies wneed *)
+Theorem C10_encoded_needs : forall f o e s v a, elab f o e s v = WOk a -> wneed f o e s v.
+Proof. exact wneed_necessary. Qed.
+Print Assumptions C10_encoded_needs.
 
 (** write_record's test for "may be absent without default" agrees with validate (F9 repaired): for schemas as
     parse_schema produces them (a dict form wraps no union / reference / dict form; named_schemas holds named types), a
@@ -125,17 +159,16 @@ Print Assumptions C10_absent_field_agrees.
 (** accepted => encoded => read back: the writer's bytes decode to the value [py_of a] (the documented normalisation
     of the datum, C01), consuming exactly those bytes; no hypothesis on the elaborated value remains *)
 Theorem C10_accepted_roundtrip : forall n o ro e s v f,
-  strict o = false /\ strict_allow_default o = false ->
-  wdom n o e s v -> validate f o e s (Some v) = Ok true -> data_ok e s v ->
+  wneed n o e s v -> validate f o e s (Some v) = Ok true -> data_ok e s v ->
   exists f0, forall f', (f0 <= f')%nat -> exists a,
     elab f' o e s v = WOk a /\ write f' o e s v = WOk (wire a) /\
     (forall pv, py_of ro e s a = Some pv ->
        forall f'', (f' <= f'')%nat -> forall r, read f'' ro e s (wire a ++ r)%list = Ok (pv, r)).
-Proof. exact accepted_roundtrip_py. Qed.
+Proof. exact accepted_roundtrip_wneed. Qed.
 Print Assumptions C10_accepted_roundtrip.
 
-(** the side condition is satisfiable on a datum with an absent nullable field, an int under "float", a defaulted
-    array given explicitly, a search over [string, long] and a tuple hint *)
+(** wneed holds of a datum with an absent nullable field, an int under "float", a defaulted array given explicitly, a search
+    over [string, long] and a tuple hint -- for the default writer, and fails for the strict one *)
 Definition wu : schema := SUnion [SString; SLong].
 Definition wr : schema :=
   SRecord (s2b "W") [] [mkField (s2b "a") (SUnion [SNull; SInt]) None [];
@@ -144,23 +177,27 @@ Definition wr : schema :=
 Definition wv : pyval := dict [("b", PInt 3); ("c", PList [PInt 7; PTuple [PStr (s2b "string"); PStr (s2b "x")]])].
 Ltac dget := match goal with |- context [dict_get ?kv ?k] =>
   let x := eval vm_compute in (dict_get kv k) in change (dict_get kv k) with x end.
-Example C10_wdom_example :
-  wdom 9 o0 [] wr wv /\ validate 9 o0 [] wr (Some wv) = Ok true /\
-  elab 9 o0 [] wr wv = WOk (ARecord [AUnion 0 ANull; AFloat 1077936128; AArray [AUnion 1 (AInt 7); AUnion 0 (AString (s2b "x"))]]).
+Example C10_wneed_example :
+  wneed 9 o0 [] wr wv /\ validate 9 o0 [] wr (Some wv) = Ok true /\
+  elab 9 o0 [] wr wv = WOk (ARecord [AUnion 0 ANull; AFloat 1077936128; AArray [AUnion 1 (AInt 7); AUnion 0 (AString (s2b "x"))]]) /\
+  (* the strict writer refuses the same datum (field a is absent): wneed fails at its second clause *)
+  ~ (exists n, wneed n ostrict [] wr wv).
 Proof.
-  split; [|split; vm_compute; reflexivity].
-  unfold wr, wv, dict. cbn [map fst snd]. apply wdom_record.
-  constructor; [|constructor; [|constructor; [|constructor]]]; unfold field_wdom; cbn [fname ftype fdefault]; dget; cbv iota beta.
-  - split; [reflexivity|]. apply wdom_union_plain; [discriminate|].
-    constructor; [|constructor; [|constructor]]; (split; [eexists; vm_compute; reflexivity|exact I]).
-  - split; [intros z E; injection E as <-; eexists; vm_compute; reflexivity|].
-    intros b E. vm_compute in E. injection E as <-. apply wdom_float.
-    + intros z E; discriminate.
-    + intros b E. vm_compute in E. injection E as <-. eexists; vm_compute; reflexivity.
-  - eapply wdom_array; [reflexivity|]. constructor; [|constructor; [|constructor]].
-    + apply wdom_union_plain; [discriminate|].
-      constructor; [|constructor; [|constructor]]; (split; [eexists; vm_compute; reflexivity|exact I]).
-    + eapply wdom_union_hint; [reflexivity|vm_compute; reflexivity|exact I].
+  split; [|split; [vm_compute; reflexivity|split; [vm_compute; reflexivity|]]].
+  - unfold wr, wv, dict. cbn [map fst snd]. apply wneed_record; [intros H; discriminate H|].
+    constructor; [|constructor; [|constructor; [|constructor]]]; unfold field_wneed; cbn [fname ftype fdefault]; dget; cbv iota beta.
+    + split; [reflexivity|]. split; [reflexivity|]. split; [reflexivity|].
+      eapply (wneed_union_search 7 o0 [] _ PNone 0 SNull); [discriminate|vm_compute; reflexivity|reflexivity|exact I].
+    + split; [intros z E; injection E as <-; eexists; vm_compute; reflexivity|].
+      intros b E. vm_compute in E. injection E as <-. apply wneed_float.
+      * intros z E; discriminate.
+      * intros b E. vm_compute in E. injection E as <-. eexists; vm_compute; reflexivity.
+    + eapply wneed_array; [reflexivity|]. constructor; [|constructor; [|constructor]].
+      * eapply (wneed_union_search 6 o0 [] _ (PInt 7) 1 SLong); [discriminate|vm_compute; reflexivity|reflexivity|exact I].
+      * eapply wneed_union_hint; [reflexivity|vm_compute; reflexivity|exact I].
+  - intros [[|n] H]; [exact H|]. unfold wr, wv, dict in H. cbn [map fst snd wneed] in H.
+    destruct (H _ eq_refl) as [_ Hf]. inversion Hf as [|? ? H1 _]; subst. unfold field_wneed in H1. cbn [fname ftype fdefault] in H1.
+    revert H1. dget. cbv iota beta. intros [H1 _]. discriminate H1.
 Qed.
 
 (** non-vacuity of C10_iff / C10_strict / C10_raise_iff: a recursive type reached by name, hints, a missing field *)
@@ -181,3 +218,10 @@ Example C10_example :
   (* a "-type" entry naming no record branch: rejected by validate and by the writer, although the map branch would fit *)
   validate 9 o0 [] th_schema (Some th_datum) = Ok false /\ elab 9 o0 [] th_schema th_datum = WErr.
 Proof. split; [|split; [|split; [|split; [|split; [|split; [|split; [|split; [|split; [|split]]]]]]]]]; vm_compute; reflexivity. Qed.
+
+(** non-vacuity of the gate: one good record pending, the bad one rejected, the state unchanged; then accepted again *)
+Example C10_gate_example :
+  let st := mkW [79; 98; 106; 1] [2; 0] 1 16000 in
+  pstep (fun b => b) [7; 7] 9 o0 true ex_env node st (PWrite bad) = (st, PRaised) /\
+  pstep (fun b => b) [7; 7] 9 o0 true ex_env node st (PWrite good) = (mkW [79; 98; 106; 1] [2; 0; 2; 2; 4; 0] 2 16000, POk).
+Proof. split; vm_compute; reflexivity. Qed.
